@@ -20,7 +20,7 @@ func vhBadKeyFile() {
 	vClockWindow(1709640000, 100000)
 	fsys := vNewFs()
 	fsys.advance = true
-	root, leaf := vEnt{"root", "root", ""}, vEnt{"leaf", "leaf", "root"}
+	root, leaf := vEnt{"root", "root", "", ""}, vEnt{"leaf", "leaf", "root", ""}
 	vWriteCfg(fsys, root)
 	vWriteCfg(fsys, leaf)
 	p, g, err := vRun(fsys)
